@@ -17,6 +17,9 @@ pub enum Op {
     ReceiveOne,
     ReceiveAll,
     Pending,
+    /// the receiver is offered a transmission and declines (what an FDL station does when its
+    /// application has nothing to send); only issued while the bus is idle
+    DeclinedTransmit,
 }
 
 #[derive(Clone, Debug, PartialEq, Eq)]
@@ -24,6 +27,7 @@ pub enum OpResult {
     One(Option<rc::RFrame>),
     All(Vec<(rc::RFrame, bool)>, Option<usize>),
     Pending(usize),
+    Declined,
 }
 
 fn do_op<P: ProfibusPhy>(phy: &mut P, now: Instant, op: Op) -> OpResult {
@@ -38,6 +42,11 @@ fn do_op<P: ProfibusPhy>(phy: &mut P, now: Instant, op: Op) -> OpResult {
             OpResult::All(v, r)
         }
         Op::Pending => OpResult::Pending(phy.poll_pending_received_bytes(now)),
+        Op::DeclinedTransmit => {
+            let r = phy.transmit_telegram(now, |_tx| None);
+            assert!(r.is_none());
+            OpResult::Declined
+        }
     }
 }
 
@@ -180,6 +189,7 @@ impl Model {
     fn op(&mut self, op: Op) -> OpResult {
         match op {
             Op::Pending => OpResult::Pending(self.v.len()),
+            Op::DeclinedTransmit => OpResult::Declined,
             Op::ReceiveOne => match rc::decode(&self.v) {
                 rc::RDec::Frame(f, n) => {
                     self.v.drain(..n);
@@ -223,7 +233,7 @@ pub struct Case {
     pub phy: u8,          // 0 queue, 1 bussim, 2 simulator
     pub frames: Vec<usize>, // indices into the telegram alphabet; 100+ = garbage chunk id
     pub cuts: Vec<usize>,
-    pub policy: u8, // 0: receive_telegram once per chunk, drain at the end; 1: receive_telegram until None per chunk; 2: receive_all per chunk; 3: pending + receive_all
+    pub policy: u8, // 0: receive_telegram once per chunk, drain at the end; 1: receive_telegram until None per chunk; 2: receive_all per chunk; 3: pending + receive_all; 4: receive_telegram + declined transmit at telegram boundaries; 5: declined transmit at telegram boundaries + receive_all
 }
 
 pub fn alphabet() -> Vec<(String, Vec<u8>)> {
@@ -256,6 +266,7 @@ pub fn run_case(c: &Case) -> Result<u64, (String, String)> {
     let total: usize = frames.iter().map(|f| f.len()).sum();
     let mut bounds: Vec<usize> = c.cuts.clone();
     bounds.push(total);
+    let frame_ends: Vec<usize> = frames.iter().scan(0usize, |acc, f| { *acc += f.len(); Some(*acc) }).collect();
     let mut feed: Box<dyn FeedDyn> = match c.phy {
         0 => Box::new(QueueFeed::new(&frames)),
         1 => Box::new(BusFeed::new(&frames)),
@@ -304,11 +315,30 @@ pub fn run_case(c: &Case) -> Result<u64, (String, String)> {
                 do_both(&mut feed, &mut model, Op::ReceiveAll, &mut got)?;
                 ops += 1;
             }
-            _ => {
+            3 => {
                 do_both(&mut feed, &mut model, Op::Pending, &mut got)?;
                 do_both(&mut feed, &mut model, Op::ReceiveAll, &mut got)?;
                 do_both(&mut feed, &mut model, Op::Pending, &mut got)?;
                 ops += 3;
+            }
+            // 4 / 5: a declined transmission between the receive calls, whenever the bus is idle (the chunk
+            // ends at a telegram boundary): unread bytes must survive it
+            4 => {
+                do_both(&mut feed, &mut model, Op::ReceiveOne, &mut got)?;
+                ops += 1;
+                if frame_ends.contains(b) {
+                    do_both(&mut feed, &mut model, Op::DeclinedTransmit, &mut got)?;
+                    do_both(&mut feed, &mut model, Op::Pending, &mut got)?;
+                    ops += 2;
+                }
+            }
+            _ => {
+                if frame_ends.contains(b) {
+                    do_both(&mut feed, &mut model, Op::DeclinedTransmit, &mut got)?;
+                    ops += 1;
+                }
+                do_both(&mut feed, &mut model, Op::ReceiveAll, &mut got)?;
+                ops += 1;
             }
         }
     }
@@ -335,6 +365,7 @@ fn brief(r: &OpResult) -> String {
         OpResult::One(o) => format!("One({:?})", o.as_ref().map(|f| f.short())),
         OpResult::All(v, r) => format!("All({:?}, ret={:?})", v.iter().map(|(f, l)| (f.short(), *l)).collect::<Vec<_>>(), r),
         OpResult::Pending(n) => format!("Pending({n})"),
+        OpResult::Declined => "Declined".into(),
     }
 }
 
@@ -451,7 +482,7 @@ pub fn run(tier: Tier) -> ! {
         };
         for cut in cuts {
             for phy in 0..3u8 {
-                for policy in 0..4u8 {
+                for policy in 0..6u8 {
                     // the timed PHYs cost more; run them with every cut set but only policies 1..3 for pairs
                     if phy > 0 && cut.len() == 2 && policy == 0 {
                         continue;
